@@ -50,6 +50,7 @@ type corpusFile struct {
 
 type corpus struct {
 	all, small, large []corpusFile
+	eof               []corpusFile            // e_*: one tiny end-of-input truncation per lexer state, drawn rarely
 	themes            map[string][]corpusFile // feature class -> files (swarm: a run may draw from one class only)
 	themeNames        []string
 }
@@ -75,8 +76,13 @@ func loadCorpus(dir string) (*corpus, error) {
 			return nil, err
 		}
 		base := filepath.Base(n)
-		f := corpusFile{name: base, src: b, php5: strings.Contains(base, "php5"), bad: strings.HasPrefix(base, "m_")}
+		f := corpusFile{name: base, src: b, php5: strings.Contains(base, "php5"), bad: strings.HasPrefix(base, "m_") || strings.HasPrefix(base, "e_m_")}
 		c.all = append(c.all, f)
+		if strings.HasPrefix(base, "e_") {
+			f.bad = true
+			c.eof = append(c.eof, f)
+			continue
+		}
 		if len(b) <= 2048 {
 			c.small = append(c.small, f)
 		} else {
@@ -115,6 +121,8 @@ func (c *corpus) inputT(r *rng, pLarge int, theme string) scn.Input {
 	var f corpusFile
 	if fs := c.themes[theme]; theme != "" && len(fs) > 0 && r.chance(90) {
 		f = fs[r.n(len(fs))]
+	} else if len(c.eof) > 0 && r.chance(4) {
+		f = c.eof[r.n(len(c.eof))]
 	} else if r.chance(pLarge) {
 		f = c.large[r.n(len(c.large))]
 	} else {
